@@ -171,6 +171,18 @@ def calls(C):
     add("find_all(FS)-partial", lambda: next(FindInAll().find(FS), None) and "abandoned", data=True)
     add("find_paths(FD)-partial", lambda: next(FindInPaths().find(FD), None) and "abandoned", data=True)
     add("find_list(FD)", lambda: list(FindInList(LST).find(FD)))
+    # '>' searches: the unfolded (cached) list is handed to the Finder, which must not change it
+    LAST = "/".join(LEAF.split("/")[:C["ver_i"]] + [">"] + LEAF.split("/")[C["ver_i"] + 1:])
+    LASTS = "/".join(LEAF.split("/")[:C["ver_i"]] + [">", "*", "*"])
+    add("unf(LAST)", lambda: unfold_search(LAST))
+    add("unf(LASTS)", lambda: unfold_search(LASTS))
+    add("find_list(LAST)", lambda: list(FindInList(LST).find(LAST)))
+    add("find_list(LASTS)-one", lambda: FindInList(LST).find_one(LASTS))
+    for c in names:
+        add(f"find_paths({c},LAST)", lambda c=c: list(FindInPaths(c).find(LAST)), data=True)
+        add(f"find_paths({c},LASTS)", lambda c=c: list(FindInPaths(c).find(LASTS)), data=True)
+    add("find_all(LASTS)", lambda: list(FindInAll().find(LASTS)), data=True)
+    add("get_last(version)", lambda: Sid(LEAF).get_last("version") if "version" in keys else None, data=True)
     add("find_one(FS)", lambda: FindInAll().find_one(FS), data=True)
     add("exists(X)", lambda: Sid(C["X"]).exists(), data=True)
     add("children(task)", lambda: Sid("/".join(LEAF.split("/")[:C["ver_i"]])).children(), data=True)
@@ -333,7 +345,8 @@ def plan(tier, seed):
     shards = []
     for hs in seeds:
         for first in ("local", "server"):
-            shards.append({"hashseed": hs, "first": first, "depth": 2, "part": [0, 1], "capacities": [None, 1] if tier == "quick" else [None, 1, 2]})
+            caps = ([None, 1] if first == "local" else [None]) if tier == "quick" else [None, 1, 2]
+            shards.append({"hashseed": hs, "first": first, "depth": 2, "part": [0, 1], "capacities": caps})
     if tier == "thorough":
         for hs, first in ((0, "local"), (1, "server")):
             for i in range(6):
@@ -398,15 +411,16 @@ def run_shard(sh):
         ncap = 5000 if sh["tier"] == "thorough" else 600
         for cap in ([None] if sh["tier"] == "thorough" else [64]):
             env.set_cache_capacity(cap)
-            env.reset()
             base_trees(C)
-            for i in range(ncap):
-                Sid(f"{C['LEAF'].split('/')[0]}/x{i}")
-                Sid(C["LEAF"] + f"?bogus={i}")
-                path_to_dict(f"/nowhere/{i}.ma")
             for n in names:
                 if n.startswith("create("):
                     continue
+                # every call is asked right after the overflow, alone (the replay does exactly this)
+                env.reset()
+                for i in range(ncap):
+                    Sid(f"{C['LEAF'].split('/')[0]}/x{i}")
+                    Sid(C["LEAF"] + f"?bogus={i}")
+                    path_to_dict(f"/nowhere/{i}.ma")
                 r = run_call(table, n)
                 rec.transitions += 1
                 if r != fresh[("", n)]:
